@@ -74,6 +74,11 @@ pub enum Op {
     Tls { early: bool, ops: Vec<Op> },
     /// hold guards so that only `free` fast slots remain on this thread (registers from base)
     Pad { c: usize, free: usize, base: usize },
+    /// load through the Access machinery; kind: 0 container, 1 Map (static), 2 Box<dyn DynAccess>, 3 Map of Map,
+    /// 4 AccessConvert, 5 Map over &container
+    AccLoad { c: usize, p: usize, kind: u32 },
+    DerefP { p: usize },
+    DropP { p: usize },
     /// A few steps doing nothing (scheduling points only)
     Nop,
 }
@@ -87,7 +92,59 @@ pub struct Program {
     pub reuse: String,
 }
 
+/// A projection guard of any type, reduced to what the checks look at.
+pub trait ProjG {
+    /// (object id, alive, inner tag) as seen through the guard right now
+    fn see(&self) -> (u32, bool, u32);
+}
+pub struct ProjBox(pub Box<dyn ProjG>);
+// the harness serialises all access (baton)
+unsafe impl Send for ProjBox {}
+impl RegKind for ProjBox {
+    const K: &'static str = "p";
+}
+struct PInner<G: std::ops::Deref<Target = crate::vptr::Inner>>(G, u32);
+impl<G: std::ops::Deref<Target = crate::vptr::Inner>> ProjG for PInner<G> {
+    fn see(&self) -> (u32, bool, u32) {
+        let tag = self.0.tag.load(std::sync::atomic::Ordering::Relaxed);
+        (tag, true, tag)
+    }
+}
+struct PObj<G: std::ops::Deref<Target = crate::vptr::Obj>>(G);
+impl<G: std::ops::Deref<Target = crate::vptr::Obj>> ProjG for PObj<G> {
+    fn see(&self) -> (u32, bool, u32) {
+        let (id, alive) = self.0.peek();
+        (id, alive, self.0.inner_ref().tag.load(std::sync::atomic::Ordering::Relaxed))
+    }
+}
+struct PT<G: std::ops::Deref<Target = T>>(G);
+impl<G: std::ops::Deref<Target = T>> ProjG for PT<G> {
+    fn see(&self) -> (u32, bool, u32) {
+        match &*self.0 {
+            None => (0, true, 0),
+            Some(p) => p.read(),
+        }
+    }
+}
+
+fn proj_obj(t: &T) -> &crate::vptr::Obj {
+    match t {
+        Some(p) => p.obj_ref(),
+        None => &crate::vptr::NULL_OBJ,
+    }
+}
+fn proj_inner(t: &T) -> &crate::vptr::Inner {
+    match t {
+        Some(p) => p.inner(),
+        None => &crate::vptr::NULL_INNER,
+    }
+}
+fn proj_obj_inner(o: &crate::vptr::Obj) -> &crate::vptr::Inner {
+    o.inner_ref()
+}
+
 pub struct World<S: Strategy<T>> {
+    pub projs: Vec<Option<ProjBox>>,
     pub conts: Vec<Option<Cont<S>>>,
     pub guards: Vec<Option<Guard<T, S>>>,
     pub handles: Vec<Option<T>>,
@@ -97,6 +154,7 @@ pub struct World<S: Strategy<T>> {
 impl<S: Strategy<T>> World<S> {
     pub fn new() -> Self {
         World {
+            projs: Vec::new(),
             conts: Vec::new(),
             guards: Vec::new(),
             handles: Vec::new(),
@@ -160,14 +218,9 @@ pub fn val_id(v: &T) -> i64 {
 pub trait CurForms: Strategy<T> + CaS<T> + Sized {
     fn cas_g(c: &ArcSwapAny<T, Self>, cur: Guard<T, Self>, new: T) -> Guard<T, Self>;
     fn cas_gref(c: &ArcSwapAny<T, Self>, cur: &Guard<T, Self>, new: T) -> Guard<T, Self>;
-    fn off_cell() -> &'static std::sync::OnceLock<usize>;
 }
 
 impl CurForms for arc_swap::DefaultStrategy {
-    fn off_cell() -> &'static std::sync::OnceLock<usize> {
-        static OFF: std::sync::OnceLock<usize> = std::sync::OnceLock::new();
-        &OFF
-    }
     fn cas_g(c: &ArcSwapAny<T, Self>, cur: Guard<T, Self>, new: T) -> Guard<T, Self> {
         c.compare_and_swap(cur, new)
     }
@@ -178,10 +231,6 @@ impl CurForms for arc_swap::DefaultStrategy {
 
 #[allow(deprecated)]
 impl CurForms for arc_swap::strategy::test_strategies::FillFastSlots {
-    fn off_cell() -> &'static std::sync::OnceLock<usize> {
-        static OFF: std::sync::OnceLock<usize> = std::sync::OnceLock::new();
-        &OFF
-    }
     fn cas_g(c: &ArcSwapAny<T, Self>, cur: Guard<T, Self>, new: T) -> Guard<T, Self> {
         let r = c.compare_and_swap(&*cur, new);
         drop(cur);
@@ -193,10 +242,6 @@ impl CurForms for arc_swap::strategy::test_strategies::FillFastSlots {
 }
 
 impl CurForms for std::sync::RwLock<()> {
-    fn off_cell() -> &'static std::sync::OnceLock<usize> {
-        static OFF: std::sync::OnceLock<usize> = std::sync::OnceLock::new();
-        &OFF
-    }
     fn cas_g(c: &ArcSwapAny<T, Self>, cur: Guard<T, Self>, new: T) -> Guard<T, Self> {
         let r = c.compare_and_swap(&*cur, new);
         drop(cur);
@@ -372,6 +417,7 @@ where
         | Op::Rcu { h, .. }
         | Op::IntoInnerC { h, .. } => run_op_inner(ctx, &Op::DropH { h: *h }),
         Op::CacheNew { x, .. } => run_op_inner(ctx, &Op::CacheDrop { x: *x }),
+        Op::AccLoad { p, .. } => run_op_inner(ctx, &Op::DropP { p: *p }),
         Op::CacheClone { y, .. } => run_op_inner(ctx, &Op::CacheDrop { x: *y }),
         _ => {}
     }
@@ -611,8 +657,9 @@ where
         Op::CacheNew { x, c } => {
             let Some(cont) = cont(w, *c) else { return };
             inv("cache_new", *c as i64, 0, 0, *x as i64);
-            let cache = Cache::new(cont);
-            let id = val_id(cache_peek(&cache));
+            let mut cache = Cache::new(cont);
+            // the value it retains is observed by an immediate load (which may already see a newer one)
+            let id = val_id(cache.load());
             let old = put(&mut wl(w).caches, *x, cache);
             ret("cache_new", *c as i64, id, *x as i64, 1);
             drop(old);
@@ -645,8 +692,8 @@ where
             }
             inv("cache_clone", -1, *x as i64, 0, *y as i64);
             let cache = take(&mut wl(w).caches, *x).unwrap();
-            let c2 = cache.clone();
-            let id = val_id(cache_peek(&c2));
+            let mut c2 = cache.clone();
+            let id = val_id(c2.load());
             put(&mut wl(w).caches, *x, cache);
             let old = put(&mut wl(w).caches, *y, c2);
             ret("cache_clone", -1, id, *y as i64, 1);
@@ -688,40 +735,63 @@ where
                 run_op_inner(ctx, &Op::DropG { g: base + i });
             }
         }
+        Op::AccLoad { c, p, kind } => {
+            use arc_swap::access::{Access, AccessConvert, DynAccess, Map};
+            let Some(cont) = cont(w, *c) else { return };
+            inv("acc_load", *c as i64, *kind as i64, 0, *p as i64);
+            let pb: Box<dyn ProjG> = match kind {
+                0 => Box::new(PT(Access::<T>::load(&cont))),
+                1 => {
+                    let m = Map::new(cont.clone(), proj_inner as fn(&T) -> &crate::vptr::Inner);
+                    Box::new(PInner(Access::<crate::vptr::Inner>::load(&m), 0))
+                }
+                2 => {
+                    let m: Box<dyn DynAccess<crate::vptr::Obj>> = Box::new(Map::new(cont.clone(), proj_obj as fn(&T) -> &crate::vptr::Obj));
+                    Box::new(PObj(DynAccess::load(&*m)))
+                }
+                3 => {
+                    let m1 = Map::new(cont.clone(), proj_obj as fn(&T) -> &crate::vptr::Obj);
+                    let m2 = Map::new(m1, proj_obj_inner as fn(&crate::vptr::Obj) -> &crate::vptr::Inner);
+                    Box::new(PInner(Access::<crate::vptr::Inner>::load(&m2), 0))
+                }
+                4 => {
+                    let m: Box<dyn DynAccess<crate::vptr::Obj>> = Box::new(Map::new(cont.clone(), proj_obj as fn(&T) -> &crate::vptr::Obj));
+                    let a = AccessConvert(m);
+                    Box::new(PObj(Access::<crate::vptr::Obj>::load(&a)))
+                }
+                _ => {
+                    // the container's own map() over a reference: the guard borrows, so evaluate it here
+                    let m = cont.map(proj_obj as fn(&T) -> &crate::vptr::Obj);
+                    let g = Access::<crate::vptr::Obj>::load(&m);
+                    let (id, alive) = g.peek();
+                    sched::log(json!({"e": "deref", "t": sched::tid() as i64, "k": "m", "r": *p as i64, "o": id as i64, "alive": alive, "tag": g.inner_ref().tag.load(std::sync::atomic::Ordering::Relaxed) as i64}));
+                    drop(g);
+                    Box::new(PT(Access::<T>::load(&cont)))
+                }
+            };
+            let (id, _alive, _tag) = pb.see();
+            put(&mut wl(w).projs, *p, ProjBox(pb));
+            ret("acc_load", *c as i64, id as i64, *p as i64, 0);
+        }
+        Op::DerefP { p } => {
+            let gd = wl(w);
+            if let Some(Some(pb)) = gd.projs.get(*p) {
+                used("p", *p);
+                let (id, alive, tag) = pb.0.see();
+                sched::log(json!({"e": "deref", "t": sched::tid() as i64, "k": "p", "r": *p as i64, "o": id as i64, "alive": alive, "tag": tag as i64}));
+            }
+        }
+        Op::DropP { p } => {
+            let Some(pb) = take(&mut wl(w).projs, *p) else { return };
+            let (id, _, _) = pb.0.see();
+            inv("drop_p", -1, id as i64, 0, *p as i64);
+            drop(pb);
+            ret("drop_p", -1, id as i64, *p as i64, 0);
+        }
         Op::Nop => {
             sched::yield_point(false);
         }
     }
-}
-
-fn cache_peek<S: Strategy<T> + CurForms + Default>(c: &Cache<Cont<S>, T>) -> &T {
-    // Cache has no public non-revalidating accessor; its Debug output is not usable either.
-    // The layout is (arc_swap, cached); we use the documented Access-free path: clone + load
-    // would revalidate, so instead read the `cached` field through a tiny layout assumption
-    // checked at start-up (see selfcheck).
-    unsafe {
-        let base = c as *const _ as *const u8;
-        &*(base.add(cache_cached_offset::<S>()) as *const T)
-    }
-}
-
-pub fn cache_cached_offset<S: Strategy<T> + CurForms + Default>() -> usize {
-    // Cache<A,T>{arc_swap: A, cached: T}: both are one pointer wide (Arc<..>, Option<VPtr>).
-    // Determine which word is which by probing a fresh cache: the word equal to the Arc pointer.
-    *S::off_cell().get_or_init(|| {
-        assert_eq!(std::mem::size_of::<Cache<Cont<S>, T>>(), 2 * std::mem::size_of::<usize>());
-        let v = VPtr::alloc(-1, false);
-        let vaddr = v.addr();
-        let cont: Cont<S> = Arc::new(ArcSwapAny::new(Some(v)));
-        let cache = Cache::new(cont);
-        let words = unsafe { *(&cache as *const _ as *const [usize; 2]) };
-        if words[0] == vaddr {
-            0
-        } else {
-            assert_eq!(words[1], vaddr);
-            std::mem::size_of::<usize>()
-        }
-    })
 }
 
 fn run_nested<S>(ctx: &Ctx<S>, op: &Op)
@@ -741,10 +811,13 @@ where
     S: Strategy<T> + CaS<T> + CurForms + Default + Send + Sync + 'static,
     S::Protected: Send,
 {
-    let (ng, nh, nx, nc) = {
+    let (ng, nh, nx, nc, np) = {
         let g = wl(&ctx.w);
-        (g.guards.len(), g.handles.len(), g.caches.len(), g.conts.len())
+        (g.guards.len(), g.handles.len(), g.caches.len(), g.conts.len(), g.projs.len())
     };
+    for p in 0..np {
+        run_op(ctx, &Op::DropP { p });
+    }
     for x in 0..nx {
         run_op(ctx, &Op::CacheDrop { x });
     }
